@@ -742,14 +742,24 @@ class TOK:
     back.  Models `float(repr(x)) == x`."""
     reg = {}
 
+    byterm = {}
+
     @staticmethod
     def reset():
         TOK.reg = {}
+        TOK.byterm = {}
 
     @staticmethod
     def make(sr):
+        # repr is a function of the value: the same term is printed as the same literal
+        tid = sr.e.get_id() if isinstance(sr, SR) else None
+        hit = TOK.byterm.get(tid)
+        if hit is not None and hit[1] is sr.e:
+            return hit[0]
         k = '9.%06de+300' % (len(TOK.reg) + 1)
         TOK.reg[k] = sr
+        if tid is not None:
+            TOK.byterm[tid] = (k, sr.e)
         return k
 
     @staticmethod
